@@ -183,6 +183,27 @@ def rel_to_cwd(rel, cwd, r=None, absolute=False):
     return posixpath.relpath(rel, cwd or '.')
 
 
+def respell(r, path, is_dir, dirs):
+    """Another spelling of the same path: ./ prefix, doubled or trailing slashes, a `d/../d` detour through an existing
+    directory.  (All of these name the same file for the kernel.)"""
+    x = r.random()
+    if path.startswith('{ROOT}') or path == '-':
+        if x < 0.2 and is_dir:
+            return path + '/'
+        return path
+    if x < 0.15:
+        return './' + path
+    if x < 0.25 and is_dir:
+        return path + '/'
+    if x < 0.32 and '/' in path:
+        return path.replace('/', '//', 1)
+    if x < 0.45 and '/' in path:
+        head, tail = path.split('/', 1)
+        if head not in ('..', '.', ''):
+            return head + '/../' + head + '/' + tail
+    return path
+
+
 def gen_flags(r, p_any=0.25, max_n=3):
     if r.random() >= p_any:
         return []
@@ -200,6 +221,17 @@ def gen_flags(r, p_any=0.25, max_n=3):
 def gen_c15_world(seed, index, tier):
     r = seeds.rng(seed, 'c15', index)
     tree, dirs, files, links = gen_tree(r, 12 if tier == 'thorough' else 9)
+    want_dotdot = r.random() < 0.12
+    if want_dotdot:
+        # make sure a directory link out of the tree exists: `w/vendor/..` is then ext/, not w/
+        have = set(e[1] for e in tree)
+        for ent in (['d', 'ext'], ['f', 'ext/e0.py', E(pick_content(r, True)[1]), None], ['d', 'ext/lib'],
+                    ['f', 'ext/lib/inner.py', E(pick_content(r, True)[1]), None]):
+            if ent[1] not in have:
+                tree.append(ent)
+        if not any(e[0] == 'l' and e[2].endswith('ext/lib') for e in tree) and 'w/vendor' not in have:
+            tree.append(['l', 'w/vendor', '../ext/lib'])
+            links.append('w/vendor')
     cwd = r.choice(['', '', '', 'w'])
     absolute = r.random() < 0.25
     cmd = {'flags': gen_flags(r), 'preserve': [], 'paths': []}
@@ -231,7 +263,14 @@ def gen_c15_world(seed, index, tier):
                 choices.append(choices[0])                   # listed twice
             else:
                 choices.append('w')
-        cmd['paths'] = [rel_to_cwd(c, cwd, absolute=absolute) for c in choices]
+        dirset = set(dirs)
+        cmd['paths'] = [respell(r, rel_to_cwd(c, cwd, absolute=absolute), c in dirset, dirs) for c in choices]
+        # `link/..` : for the kernel that is the parent of the link's TARGET, not the directory holding the link
+        dirlinks = [e for e in tree if e[0] == 'l' and e[2].endswith('ext/lib')]
+        if dirlinks and (want_dotdot or r.random() < 0.35):
+            l = r.choice(dirlinks)[1]
+            tail = r.choice(['', 'e0.py', 'e0.py', 'lib/inner.py', 'e1.py'])
+            cmd['paths'].append(rel_to_cwd(l, cwd, absolute=absolute) + '/..' + ('/' + tail if tail else ''))
     elif x < 0.92:
         src = r.choice(py_files or file_names)
         y = r.random()
@@ -441,8 +480,8 @@ def gen_c14_batch(seed, index, tier):
     per = 12
     for j in range(per):
         x = r.random()
-        if index == 0 and j < len(p['grow']):
-            content = p['grow'][j][1]
+        if index in (0, 2) and j + (12 if index == 2 else 0) < len(p['grow']):
+            content = p['grow'][j + (12 if index == 2 else 0)][1]
         elif index == 1 and j < len(p['equal']):
             content = p['equal'][j][1]
         elif x < 0.55:
@@ -452,14 +491,19 @@ def gen_c14_batch(seed, index, tier):
             parts = [r.choice([b'a=1if b else 2', b'c=0in d', b'e=1is f', b'g=[0for h in i]', b'x=1or 2', b'y=1', b'import z', b'k=2and 3',
                                'u="é"'.encode('utf-8'), b'v=0if 1else 2'])
                      for _ in range(r.randrange(1, 6))]
-            content = b'\n'.join(parts)
+            nl = r.choice([b'\n', b'\n', b'\r\n', b'\r'])
+            content = nl.join(parts)
             if r.random() < 0.3:
-                content = b'#!/bin/sh\n' + content
+                content = b'#!/bin/sh' + nl + content
+            if r.random() < 0.15:
+                content = b'\xef\xbb\xbf' + content
+            if r.random() < 0.2:
+                content += nl
         elif x < 0.9:
             content = r.choice(p['shrink'])[1]
         else:
             content = r.choice(p['fail'] + p['docs'])[1]
-        if index < 2:
+        if index < 3:
             io = IO_MODES[(j + index) % 5]
         else:
             io = r.choice(IO_MODES)
